@@ -233,7 +233,21 @@ func ExecuteC17(t *testing.T, plan *Plan) *RunResult {
 			}
 		}
 	} else {
-		// verification not required: only "never crash" and "intact passes" are judged
+		// --verify on dependency build uses this strategy: a missing provenance file is tolerated, but when
+		// one is served (always, here) a failed verification must still be an error
+		if accepted {
+			got, _ := os.ReadFile(destfile)
+			switch {
+			case !bytes.Equal(got, archive):
+				violate("accept-only-untampered", cause+",strategy=ifpossible", "download was accepted although the archive bytes differ from the signed original")
+			case !trusted:
+				violate("accept-only-trusted-key", cause+",strategy=ifpossible", "download was accepted although the signer's key is not in the keyring")
+			case c.Rename:
+				violate("accept-only-matching-name", cause+",strategy=ifpossible", "download was accepted although the archive was served under a file name the provenance does not list")
+			case c.SwapProv:
+				violate("accept-only-own-provenance", cause+",strategy=ifpossible", "download was accepted with the provenance file of another chart")
+			}
+		}
 		if intact && trusted && !accepted {
 			violate("intact-trusted-passes", cause, fmt.Sprintf("an untampered chart signed by a trusted key was rejected: %v", opErr))
 		}
@@ -273,7 +287,7 @@ func genC17(seed, index uint64, tier string) *Plan {
 		c.Corrupt = g.Pick("bitflip", "bitflip", "byte", "truncate", "prefix", "suffix", "empty")
 		c.Pos = g.N(1 << 20)
 	}
-	if g.Chance(0.15) {
+	if g.Chance(0.3) {
 		c.Strategy = "ifpossible"
 	}
 	p.Net = &NetSpec{Path: "c17", C17: c}
